@@ -105,10 +105,11 @@ def run_discovery(col):
 # ------------------------------------------------------------------------------------------
 # helpers
 # ------------------------------------------------------------------------------------------
-def Fsym(dim=3, trailing=(1, 1), name="F"):
-    F = np.empty((dim, dim) + trailing, dtype=object)
+def Fsym(dim=3, trailing=(1, 1), name="F", dim2=None):
+    dim2 = dim if dim2 is None else dim2
+    F = np.empty((dim, dim2) + trailing, dtype=object)
     for i in range(dim):
-        for j in range(dim):
+        for j in range(dim2):
             for t in np.ndindex(*trailing):
                 F[(i, j) + t] = sym("%s%d%d" % (name, i, j) if all(x == 0 for x in t) else "%s%d%d_%s" % (name, i, j, "".join(map(str, t))))
     return F
@@ -127,16 +128,16 @@ def entry(A, idx, trailing_nd=2):
 
 def check_tensor_derivative(col, oid, label, where, rule, G, H, F, order_out, dims=None, trailing_nd=2):
     """H[idx + kl] == d G[idx] / d F[k,l] for all entries; G has `order_out` tensor axes"""
-    dim = F.shape[0]
+    dim, dim2 = F.shape[0], F.shape[1]
     shp_g = G.shape[:order_out]
-    exp = tuple(shp_g) + (dim, dim)
+    exp = tuple(shp_g) + (dim, dim2)
     if H.shape[:order_out + 2] != exp:
         col.add(oid, "%s shape" % label, rule, False, "%s: shape %s, expected leading %s" % (where, H.shape, exp))
         return
     for idx in np.ndindex(*shp_g):
         g = entry(G, idx, trailing_nd)
         for k in range(dim):
-            for l in range(dim):
+            for l in range(dim2):
                 d = diff(g, entry(F, (k, l), trailing_nd))
                 h = entry(H, idx + (k, l), trailing_nd)
                 okk = is_zero(d - h)
@@ -146,10 +147,10 @@ def check_tensor_derivative(col, oid, label, where, rule, G, H, F, order_out, di
 
 
 def check_scalar_derivative(col, oid, label, where, rule, W, G, F, trailing_nd=2):
-    dim = F.shape[0]
+    dim, dim2 = F.shape[0], F.shape[1]
     w = entry(W, (), trailing_nd)
     for i in range(dim):
-        for j in range(dim):
+        for j in range(dim2):
             d = diff(w, entry(F, (i, j), trailing_nd))
             g = entry(G, (i, j), trailing_nd)
             okk = is_zero(d - g)
@@ -184,8 +185,8 @@ def history_obligation(col, it, umat, label, cls, x1, x2, ngrad=None):
     col.check("C03.O1h", "%s evaluation history" % label, "gradient(x) and hessian(x) do not depend on evaluations made before at other states (gradient(y) then hessian(x), hessian(y) then gradient(x))", chk)
 
 
-def hyper_obligations(col, it, umat, label, cls, has_function=True, out_variants=True, statevars=None):
-    F = Fsym()
+def hyper_obligations(col, it, umat, label, cls, has_function=True, out_variants=True, statevars=None, shape=None):
+    F = Fsym() if shape is None else Fsym(shape[0], dim2=shape[1])
     F0 = F.copy()
     sv = statevars if statevars is not None else npmodel.zeros((0, 1, 1))
     sv0 = sv.copy()
@@ -210,7 +211,7 @@ def hyper_obligations(col, it, umat, label, cls, has_function=True, out_variants
             r = it.call_method(umat, "hessian", [[F, sv]], dict(out=buf))[0]
             return same_arrays(r, A_) and same_arrays(F, F0), "hessian(out=dirty buffer) differs from hessian() or input modified"
         col.check("C03.O1o", "%s.hessian out=" % label, "a supplied (dirty) out buffer yields the same elasticity", h_out)
-    history_obligation(col, it, umat, label, cls, [F, sv], [Fsym(name="G"), sv], ngrad=1)
+    history_obligation(col, it, umat, label, cls, [F, sv], [Fsym(name="G") if shape is None else Fsym(shape[0], dim2=shape[1], name="G"), sv], ngrad=1)
     return F, P_, A_
 
 
@@ -256,6 +257,9 @@ def run_linear(col):
     cls = it.get(base + "poisson._laplace:Laplace")
     umat = it.call(cls, [], dict(multiplier=sym("k", True)))
     hyper_obligations(col, it, umat, "Laplace", cls, out_variants=False)
+    # the Poisson problem: gradient of a scalar (or any m-component) field in an n-dimensional region -- a rectangular (m, n) array
+    for shp in ((1, 2), (1, 3), (2, 3), (3, 2), (2, 2)):
+        hyper_obligations(col, it, umat, "Laplace[field gradient %dx%d]" % shp, cls, out_variants=False, shape=shp)
     for cname in ("LinearElastic", "LinearElasticTensorNotation"):
         cls = it.get(base + "linear_elasticity._linear_elastic:" + cname)
         umat = it.call(cls, [], dict(E=E, nu=nu))
@@ -297,6 +301,8 @@ class OpaqueHyper:
     """python-side stand-in for an arbitrary hyperelastic inner material: W = W(F) opaque, P = dW/dF,
     A = d2W/dFdF as derivative atoms (names canonical in the derivative multi-index => major symmetry)"""
 
+    updates_state = False
+
     def __init__(self, name="Wm", dim=3, with_state=False):
         self.name = name
         self.dim = dim
@@ -332,6 +338,12 @@ class OpaqueHyper:
                 for j in range(n):
                     P_[(i, j) + t] = ring.ofun("%s|%d" % (self.name, i * n + j), a)
         self.calls.append(("gradient", x))
+        if self.updates_state:
+            # a history-dependent material: the new state is a function of F and the old state, distinct for every material instance
+            zn = np.empty(np.asarray(x[-1]).shape, dtype=object)
+            for t in np.ndindex(*zn.shape):
+                zn[t] = ring.ofun("%s_state%s" % (self.name, "".join(map(str, t))), self._args(F, tuple(0 for _ in F.shape[2:])) + [P(x[-1][t])])
+            return [P_, zn]
         return [P_, x[-1]]
 
     def hessian(self, x, out=None):
@@ -691,6 +703,17 @@ def run_composite(col):
     Pa, Pb = a.gradient([F, sv])[0], b.gradient([F, sv])[0]
     Aa, Ab = a.hessian([F, sv])[0], b.hessian([F, sv])[0]
     col.add("C03.O8", "CompositeMaterial.gradient", "sum of both materials' stresses; state variables of the first", same_arrays(g[0], Pa + Pb) and g[1] is not None and same_arrays(g[1], sv) and len(g) == 2)
+    # history-dependent first material, state-free second one (a & Volumetric): the composite hands out the *first* material's new state
+    for first, second in ((True, False), (True, True)):
+        a2, b2 = OpaqueHyper("Wa", with_state=True), OpaqueHyper("Wb", with_state=True)
+        a2.updates_state, b2.updates_state = first, second
+        um2 = it.call(cls, [], dict(material=a2, other_material=b2))
+        g2 = it.call_method(um2, "gradient", [[F, sv]])
+        za = a2.gradient([F, sv])[1]
+        col.add("C03.O8", "CompositeMaterial.gradient state update (second material %s)" % ("updates its own copy" if second else "passes the old state through"),
+                "the new state variables handed out are those the first material computed (documented: state variables are only considered for the first material)",
+                len(g2) == 2 and g2[1] is not None and same_arrays(g2[1], za), "%s: returned %s, first material's new state %s" % (
+                    method_where(cls, "gradient"), [ring.fmt(P(v), 2) for v in np.asarray(g2[1]).reshape(-1)], [ring.fmt(P(v), 2) for v in np.asarray(za).reshape(-1)]))
     col.add("C03.O8", "CompositeMaterial.hessian", "sum of both materials' elasticity tensors", same_arrays(h[0], Aa + Ab) and len(h) == 1)
     check_tensor_derivative(col, "C03.O8", "CompositeMaterial.hessian", method_where(cls, "hessian"), "hessian == d gradient/dF", g[0], h[0], F, 2)
     finish_info(col, it)
